@@ -81,6 +81,14 @@ Inductive reach_idx (es : list (nat * nat * bytes * deptype)) : nat -> Prop :=
 | reach_root : reach_idx es O
 | reach_step f t rq ty : reach_idx es f -> In (f, t, rq, ty) es -> reach_idx es t.
 
+(* reachability along edges whose label is a requirement of their source VERSION *)
+Inductive reach_req (creq : vkey -> res (list req)) (nodes : list vkey) (es : list (nat * nat * bytes * deptype)) : nat -> Prop :=
+| rr_root : reach_req creq nodes es O
+| rr_step f t v w l d : reach_req creq nodes es f ->
+    nth_error nodes f = Some v -> nth_error nodes t = Some w ->
+    creq v = Ok l -> In d l -> rq_name d = vk_name w ->
+    In (f, t, rq_ver d, rq_type d) es -> reach_req creq nodes es t.
+
 Section Graph.
   Variable c_versions : bytes -> res (list vkey).
   Variable c_requirements : vkey -> res (list req).
@@ -543,6 +551,87 @@ Section Graph.
     - subst w. destruct (an_hd _ _ _ A) as (tl & En). rewrite En in Gj. unfold ids_of in Gj. simpl in Gj.
       rewrite bytes_eqb_refl in Gj. inversion Gj; subst. constructor.
     - destruct (an_conn _ _ _ A _ Tw) as [_ Sw]. eapply sreach_reach; eauto.
+  Qed.
+
+  (* ----- the same along real edges only, for clients whose MatchingVersions answers are Concrete ----- *)
+  Hypothesis Hconc : forall k l v, c_matching k = Ok l -> In v l -> vk_type v = version_type_concrete.
+  Hypothesis Hroot : vk_type root = version_type_concrete.
+
+  Lemma mv_type rq l v : MV rq = Ok l -> In v l -> vk_type v = version_type_concrete.
+  Proof.
+    unfold matching_versions. intros H Hin.
+    destruct (client_err (c_matching rq)) as [mvs| | |] eqn:C; simpl in H; try discriminate.
+    apply client_err_Ok in C.
+    destruct (negb (bytes_eqb (vk_name rq) (vk_name root))).
+    - inversion H; subst. eauto.
+    - destruct (vk_mem root mvs); inversion H; subst; simpl in Hin; [|contradiction].
+      destruct Hin as [Hin|[]]. subst. auto.
+  Qed.
+
+  Lemma gm_type pre rq l v : GM pre rq = Ok l -> In v l -> vk_type v = version_type_concrete.
+  Proof.
+    unfold gm. destruct pre; [|apply mv_type].
+    unfold matching_versions_pre. destruct (has_pre (vk_ver rq)); [apply mv_type|].
+    intros H Hin.
+    destruct (client_err (c_versions (vk_name rq))) as [vs| | |] eqn:C; simpl in H; try discriminate.
+    destruct (negb (constraint_ok (vk_ver rq))); [inversion H; subst; contradiction|].
+    destruct (filter_slice _ _ vs) as [kept| | |] eqn:F; simpl in H; try discriminate.
+    inversion H; subst. apply isort_In in Hin.
+    destruct (filter_slice_spec _ _ _ _ (le_n _) F) as [I0 _]. apply I0 in Hin as [_ Hp].
+    inversion Hp as [Hb]. apply andb_true_iff in Hb as [Hb _]. apply N.eqb_eq in Hb. auto.
+  Qed.
+
+  Lemma pinned_not_zero v : pinned v -> v <> vkey_zero.
+  Proof.
+    intros Pv Ez. destruct (pin_in_cands _ _ Pv) as (c & Gc & Hin).
+    destruct (inv_crit _ _ _ _ _ _ _ _ _ _ HI _ _ Gc) as [A1 _ _ _ A5 _].
+    destruct (c_info c) as [|[d par] rest] eqn:Ei; [congruence|].
+    assert (Hd : In d (reqs_of c)) by (unfold reqs_of; rewrite Ei; simpl; auto).
+    destruct (A1 _ Hin _ Hd) as (l & Gl & Hl).
+    pose proof (gm_type _ _ _ _ Gl Hl) as Ty. subst v. simpl in Ty. vm_compute in Ty. discriminate.
+  Qed.
+
+  Lemma sreach_reach_req c' :
+    AN c' (g_nodes g) (ids_of (g_nodes g)) ->
+    (forall p v, In (p, v) (mapping st) -> T c' v -> In v (g_nodes g)) ->
+    add_edges root st (ids_of (g_nodes g)) (ids_of (g_nodes g)) = Ok (g_edges g) ->
+    forall v, sreach (T c') v -> In v (g_nodes g) ->
+    forall t, ids_get (ids_of (g_nodes g)) (vk_name v) = Some t ->
+    reach_req c_requirements (g_nodes g) (g_edges g) t.
+  Proof.
+    intros A P E v Hs. induction Hs as [|v par d c Hpar IH Tp Rp Gc Hd]; intros Hv t Gt.
+    - destruct (an_hd _ _ _ A) as (tl & En). rewrite En in Gt. unfold ids_of in Gt. simpl in Gt.
+      rewrite bytes_eqb_refl in Gt. inversion Gt; subst. constructor.
+    - assert (Hin : In par (g_nodes g)).
+      { destruct Rp as [Er|Pp].
+        - subst. destruct (an_hd _ _ _ A) as (tl & En). rewrite En. left; auto.
+        - apply (P (vk_name par) par); auto. apply vm_get_In; auto. }
+      destruct (ids_of_find _ _ (an_nodup _ _ _ A) Hin) as (f & Gf & Nf).
+      pose proof (IH Hin _ Gf) as Rf.
+      assert (Z : vkey_eqb par vkey_zero = false).
+      { apply vkey_eqb_neq. destruct Rp as [Er|Pp]; [|apply pinned_not_zero; auto].
+        subst par. intros Ez. rewrite Ez in Hroot. vm_compute in Hroot. discriminate. }
+      destruct (ids_of_find _ _ (an_nodup _ _ _ A) Hv) as (t' & Gt' & Nt).
+      assert (t' = t) by congruence. subst t'.
+      destruct (inv_crit _ _ _ _ _ _ _ _ _ _ HI _ _ Gc) as [_ _ A3 A4 _ _].
+      destruct (A4 _ _ Hd) as (E0 & l & Rl & Dl & _).
+      apply (rr_step _ _ _ f t par v l d); auto.
+      + apply (A3 _ _ Hd).
+      + apply (add_edges_spec _ _ _ E). exists (vk_name v), t, c. split; [apply ids_get_In; auto|]. split; auto.
+        apply edges_of_info_In. exists d, par, f. rewrite Z. auto.
+  Qed.
+
+  Theorem graph_reachable_req i w :
+    nth_error (g_nodes g) i = Some w -> reach_req c_requirements (g_nodes g) (g_edges g) i.
+  Proof.
+    intros Hi. destruct build_graph_facts as (c' & A & P & E).
+    pose proof (nth_error_In _ _ Hi) as Hin.
+    destruct (ids_of_find _ _ (an_nodup _ _ _ A) Hin) as (j & Gj & Hj).
+    assert (j = i) by (eapply nodup_nth_name; eauto; apply (an_nodup _ _ _ A)). subst j.
+    destruct (an_nodes _ _ _ A _ Hin) as [Er|[Pw Tw]].
+    - subst w. destruct (an_hd _ _ _ A) as (tl & En). rewrite En in Gj. unfold ids_of in Gj. simpl in Gj.
+      rewrite bytes_eqb_refl in Gj. inversion Gj; subst. constructor.
+    - destruct (an_conn _ _ _ A _ Tw) as [_ Sw]. eapply sreach_reach_req; eauto.
   Qed.
 
   (* completeness, as far as it holds: the requirements kept when v was pinned (for the extras E
